@@ -15,6 +15,10 @@ CONFIG = dict(
             dict(name="value-model", code=1903, kind="eq"),
             dict(name="value-spec", code=1904, kind="holds", predicate=True),
         ]),
+        dict(suffix="-m", comparisons=[
+            dict(name="mean-model", code=1905, kind="eq"),
+            dict(name="mean-spec", code=1906, kind="holds", predicate=True),
+        ]),
     ],
     trusted_base=COMMON_TB + [
         "tools/gen_units.py: the translator from metrique-writer-core/src/unit.rs to coq/theories/C19/UnitsGen.v (fails closed)",
